@@ -437,6 +437,50 @@ def r_idx_pair(ck: Checker) -> None:
     (ck.holds if not bad_ else ck.violation)("R-IDX-PAIR", d, d.node, what, **({"evaluations": len(dl)} if not bad_ else {"construct": f"Source._deserialize: {bad_}"}))
 
 
+def r_seq_canon(ck: Checker) -> None:
+    """A compared field of a serializable dataclass that is annotated with an *abstract* sequence type (Sequence / Collection / Iterable)
+    accepts a tuple as well as a list, mashumaro reads such a field back as a list, and the generated dataclass __eq__ compares the two
+    containers with == (a tuple never equals a list).  So the value built with a tuple is not == to what its own serialization reads
+    back unless the class brings the field to one concrete container type when it is constructed (`object.__setattr__(self, f,
+    tuple(self.f))` / `list(...)` in __post_init__)."""
+    ABSTRACT = ("Sequence", "Collection", "Iterable", "MutableSequence", "Reversible")
+    n = 0
+    for modname in (ORIGIN, "pyoak.node", "pyoak.serialize"):
+        m_ = ck.repo.mod(modname)
+        for c in [x for x in ast.walk(m_.tree) if isinstance(x, ast.ClassDef)]:
+            if not any((dotted(d.func if isinstance(d, ast.Call) else d) or "").split(".")[-1] == "dataclass" for d in c.decorator_list):
+                continue
+            for st in c.body:
+                if not (isinstance(st, ast.AnnAssign) and isinstance(st.target, ast.Name)):
+                    continue
+                ann = st.annotation
+                head = ann.value if isinstance(ann, ast.Subscript) else ann
+                if (dotted(head) or "").split(".")[-1] not in ABSTRACT:
+                    continue
+                if isinstance(st.value, ast.Call) and any(k.arg == "compare" and isinstance(k.value, ast.Constant) and k.value.value is False for k in st.value.keywords):
+                    continue
+                n += 1
+                fname = st.target.id
+                what = (f"{c.name}.{fname} (annotated {norm(ann)[:40]}) is brought to one concrete container type at construction: a list read back by "
+                        "deserialization and a tuple given by the caller compare equal")
+                pi = next((x for x in c.body if isinstance(x, ast.FunctionDef) and x.name == "__post_init__"), None)
+                canon = None
+                if pi is not None:
+                    for x in ast.walk(pi):
+                        if isinstance(x, ast.Call) and dotted(x.func) in ("object.__setattr__", "setattr") and len(x.args) == 3 and isinstance(x.args[1], ast.Constant) \
+                                and x.args[1].value == fname and isinstance(x.args[2], ast.Call) and dotted(x.args[2].func) in ("tuple", "list") \
+                                and len(x.args[2].args) == 1 and norm(x.args[2].args[0]) == f"self.{fname}":
+                            canon = x
+                where = (m_.rel, f"{c.name}.__post_init__") if pi is not None else (m_.rel, f"class {c.name}")
+                if canon is not None:
+                    ck.holds("R-SINGLETON-RT", where, canon, what, container=dotted(canon.args[2].func))
+                else:
+                    ck.violation("R-SINGLETON-RT", where, pi or c, what,
+                                 construct=f"{c.name}.{fname}: no normalisation of the container — {c.name}({fname}=(a, b)) is not == to what its own as_dict()/as_obj() round trip returns (a list)")
+    if n == 0:
+        ck.incomplete("R-SINGLETON-RT", None, None, "no field annotated with an abstract sequence type found (MultiOrigin.origins confirmed by hand)")
+
+
 def r_payload_readonly(ck: Checker) -> None:
     """The mapping handed to a deserialization hook is the caller's object (as_obj passes it on; mashumaro passes nested mappings of it):
     a hook that pops / deletes / stores keys of it changes what a second read of the same payload sees (positive pattern)."""
@@ -519,6 +563,7 @@ def run(ck: Checker) -> None:
     ck.assumptions += ["mashumaro, orjson, msgpack and PyYAML round-trip the representable value kinds (not analysed)"]
     ck.guard("R-DESER-ID", lambda: r_deser_id(ck))
     ck.guard("R-DESER-ID", lambda: r_payload_readonly(ck))
+    ck.guard("R-SINGLETON-RT", lambda: r_seq_canon(ck))
     ck.guard("R-FMT-PAIR", lambda: r_no_serialized_memo(ck))
     ck.guard("R-TAG-TABLE", lambda: r_tag_table(ck))
     ck.guard("R-SINGLETON-RT", lambda: r_singleton_rt(ck))
